@@ -44,24 +44,24 @@ def axis(name):
 
 
 def run(prog, chk):
-    native_only(prog, chk)
-    shorthands(prog, chk)
-    axis_consistency(prog, chk)
-    constraint_algebra(prog, chk)
-    single_tokenizer(prog, chk)
+    chk.rule(native_only, prog, chk)
+    chk.rule(shorthands, prog, chk)
+    chk.rule(axis_consistency, prog, chk)
+    chk.rule(constraint_algebra, prog, chk)
+    chk.rule(single_tokenizer, prog, chk)
     from props import geomalg
-    geomalg.check_sites(prog, chk, "C11")
-    geomalg.check_float_truncation(prog, chk)  # no float is cut down to an integer on the way (a truncated distance / coordinate makes different candidates tie)
-    emission_algebra(prog, chk)
-    extraction_algebra(prog, chk)
-    shape_pipeline(prog, chk)
+    chk.rule(geomalg.check_sites, prog, chk, "C11")
+    chk.rule(geomalg.check_float_truncation, prog, chk)  # no float is cut down to an integer on the way (a truncated distance / coordinate makes different candidates tie)
+    chk.rule(emission_algebra, prog, chk)
+    chk.rule(extraction_algebra, prog, chk)
+    chk.rule(shape_pipeline, prog, chk)
     from props import geomalg as _g
-    _g.check(prog, chk, "C11", floor=20)  # the box primitives the constraint algebra is written in
+    chk.rule(_g.check, prog, chk, "C11", floor=20)  # the box primitives the constraint algebra is written in
     from props import strops
-    strops.check_for(prog, chk, "C11")
+    chk.rule(strops.check_for, prog, chk, "C11")
     from props import C04 as _C04
-    _C04.formatter_trims_one_character_class_at_a_time(prog, chk)  # what is written is the computed number: its integer digits survive the formatter
-    strops.check_number_formatting(prog, chk)  # results are exact up to the 3-decimal *output* rounding  # A14.str-ops: how this property's strings are cut up is a reviewed, frozen inventory
+    chk.rule(_C04.formatter_trims_one_character_class_at_a_time, prog, chk)  # what is written is the computed number: its integer digits survive the formatter
+    chk.rule(strops.check_number_formatting, prog, chk)  # results are exact up to the 3-decimal *output* rounding  # A14.str-ops: how this property's strings are cut up is a reviewed, frozen inventory
 
 
 def _arms(owner):
